@@ -6,6 +6,19 @@ ids = [p['id'] for p in props]
 
 # id -> (level, technique, text, note)
 CLAIMED = {
+ "C22": ("exploration", "round-trip and totality monitor (catch_unwind oracle) over a component grid + mutated texts, incl. SQL CAST/literal route",
+         "Every grid value is formatted and re-parsed (exhaustive over the stated component grid); random valid values and thousands of mutated texts are fed to every temporal FromStr / Interval::new and to SQL CAST / typed literals under catch_unwind. Held = no mismatch and no panic on what was generated.",
+         "Validity of dates is the harness's Gregorian rule; only panics (not wrong acceptances) are judged for hostile strings."),
+ "C27": ("exploration", "framing monitor: bytes consumed per decode call vs declared frame end, on well-formed streams, all prefixes and hostile frames",
+         "decode/decode_startup (the server's own source, compiled via #[path]) are driven with concatenated well-formed frames, every strict prefix, and hostile first frames followed by a well-formed one; the monitor checks consumption against the declared length, message equality and untouched followers.",
+         "connection.rs (tokio loop) is not exercised; under-consumption of malformed frames is not judged."),
+ "C28": ("exploration", "independent PostgreSQL v3 frame parser as oracle over randomly generated BackendMessage values",
+         "Every BackendMessage variant with arbitrary field contents is encoded and re-parsed by an independent parser that demands one frame, exact length and identical fields.",
+         "Strings carried as C strings are generated without NUL (the wire format cannot represent it); the parser is the author's reading of the protocol."),
+ "C29": ("exploration", "credential model as oracle (independent PostgreSQL MD5 computation) over generated stores and attempts",
+         "Stores with Argon2, {MD5} and foreign-format secrets are probed with exact, near-miss and cross-user credentials and 12 kinds of MD5 responses; every verdict is compared with the model.",
+         "argon2 and md-5 crates trusted; unprefixed-but-correct MD5 hex is don't-care."),
+
  "C21": ("exploration", "law checker over an enumerated value pool + SQL-level consequence monitor (runtime oracle)",
          "Every pair and triple of a fixed pool covering all SqlValue variants and special values is checked against the algebraic laws (exhaustive over the pool), pools with random extras add more; DISTINCT/GROUP BY/UNION are then observed on tables holding those values. Held = no law broken on the enumerated pool; says nothing about values outside the pool's classes.",
          "Trusts std's DefaultHasher as representative of any Hasher; pool classes chosen by hand."),
